@@ -15,13 +15,18 @@ BuildOk(e) ==
   LET conf == e.conf  r == e.res  want0 == NewMessage(conf, None)  want == NewMessage(conf, e.sh0) IN      \* e.sh0: storage header given to Message::new
   ConfFits(conf) =>
     /\ r.v = "ok"
-    /\ [r.m EXCEPT !.h.plen = 0] = [want EXCEPT !.h.plen = 0]             \* fields, VERB / NOAR as the payload kind requires (the payload length: next line)
+    /\ IF WellFormed(want0)
+       THEN [r.m EXCEPT !.h.plen = 0] = [want EXCEPT !.h.plen = 0]        \* fields, VERB / NOAR as the payload kind requires (the payload length: next line)
+       ELSE /\ r.m.h.ueh = want.h.ueh /\ r.m.p = want.p                  \* a configuration that describes no well-formed message (version > 7, over-long ids ...):
+            /\ (want.x # None => r.m.x # None /\ r.m.x[1].verb = want.x[1].verb /\ r.m.x[1].noar = want.x[1].noar)   \* only what the statement names
     /\ r.m.h.plen = Len(r.bytes) - HdrsLen(r.bytes[1])                   \* recorded payload length = serialised payload
     /\ r.blen = Len(r.bytes)                                             \* byte length = serialisation without storage header
-    /\ r.m2 = AddStorageHeader(r.m, e.ts.secs, e.ts.us)
-    /\ Len(r.bytes2) = 16 + Len(r.bytes) /\ SubSeq(r.bytes2, 17, Len(r.bytes2)) = r.bytes
-    /\ SubSeq(r.bytes2, 1, 16) = EncStorage(r.m2.sh[1])                  \* 16 bytes carrying the given time and the ECU id
-    /\ WellFormed(want0) => (r.parse.v = "msg" /\ r.parse.m = r.m2 /\ r.parse.consumed = Len(r.bytes2))    \* parses back to an equal message
+    /\ e.sh0 = None =>                                                   \* (adding a storage header to a message that has one already: nothing is stated)
+        /\ r.m2 = AddStorageHeader(r.m, e.ts.secs, e.ts.us)
+        /\ Len(r.bytes2) = 16 + Len(r.bytes) /\ SubSeq(r.bytes2, 17, Len(r.bytes2)) = r.bytes
+        /\ IF WellFormed(want0)                                          \* 16 bytes carrying the given time and the ECU id: they parse back
+           THEN r.parse.v = "msg" /\ r.parse.m = r.m2 /\ r.parse.consumed = Len(r.bytes2)    \* ... to an equal message (the byte layout itself is C02's)
+           ELSE SubSeq(r.bytes2, 1, 16) = EncStorage(r.m2.sh[1])
 \* ---- C02 (writer half through the public constructor): the bytes written for Message::new(conf) are the layout of the message
 \* the configuration describes (length field = real length, flags as the payload kind requires)
 LayoutOk(e) == LET want == NewMessage(e.conf, None) IN
@@ -35,8 +40,8 @@ StampNowOk(e) == e.res.v = "ok" /\ e.res.secs_minus_before >= 0 - 1 /\ e.res.aft
 \* ---- C15: one argument.  e.a; e.res = [v, len, be, le, valid]
 ArgOk(e) ==
   LET a == e.a  r == e.res IN
-  /\ r.v = "ok"
-  /\ ArgWellFormed(a) => (r.len = r.be /\ r.len = r.le)
+  /\ r.v = "ok"                                                             \* the validity check itself never panics
+  /\ ArgWellFormed(a) => (r.m = "ok" /\ r.len = r.be /\ r.len = r.le)         \* (measuring an argument that is not well formed: nothing is stated)
   /\ ~ArgValid(a) => ~r.valid
 \* ---- C17
 TsOk(e) ==
